@@ -400,7 +400,7 @@ pub fn run(tier: Tier) -> i32 {
         // deviation bound: 1 for single games and pairs (quick: chunk sizes <= 16), 2 for single
         // games in thorough runs with chunk sizes <= 6
         let (bound, max_chunk) = match (tier, d.idx.len()) {
-            (Tier::Quick, 1) => (1, 16),
+            (Tier::Quick, 1) => (2, 5),
             (Tier::Quick, 2) => (1, 4),
             (Tier::Quick, _) => (0, 0),
             (Tier::Thorough, 1) => (2, 6),
@@ -408,9 +408,13 @@ pub fn run(tier: Tier) -> i32 {
             (Tier::Thorough, _) => (1, 3),
         };
         check_doc(&rep, &pool, d, bound, max_chunk, &runs, &outcomes);
-        if tier == Tier::Thorough && d.idx.len() == 1 {
-            // bound 1 over every chunk size for single games
-            check_doc(&rep, &pool, d, 1, usize::MAX, &runs, &outcomes);
+        if d.idx.len() == 1 {
+            // bound 1 over every chunk size (quick: up to 16) for single games
+            check_doc(&rep, &pool, d, 1, if tier == Tier::Quick { 16 } else { usize::MAX }, &runs, &outcomes);
+        }
+        if d.idx.len() == 2 && !d.comments {
+            // bound 2 on two-game documents at the smallest chunk sizes: state carried over three reads
+            check_doc(&rep, &pool, d, 2, if tier == Tier::Quick { 3 } else { 5 }, &runs, &outcomes);
         }
     });
     let mut cov = Coverage::new();
